@@ -132,7 +132,7 @@ theorem blocked_writers_counters (cs : Bool) (cap mm fl : Nat) (q : Q) (hq : Q.c
 
 -- non-vacuity: DROP_OLDEST|BLOCK_WRITER queue of capacity 1, three pushes (two drops), a clear, a dequeue of nothing
 example :
-    let q : Q := { cap := 1, maxMsg := 8, flags := 3, slots := [⟨0, 0, 0⟩] }
+    let q : Q := { cap := 1, maxMsg := 8, flags := flagDropOldest ||| flagBlockWriter, slots := [⟨0, 0, 0⟩] }
     let s := (BSys.init true q [[⟨1, 1, 8⟩, ⟨1, 2, 8⟩, ⟨1, 3, 8⟩]]).run [.writer 0, .writer 0, .writer 0, .clear, .deq 8]
     s.q.enqCount = 3 ∧ s.q.dropCount = 2 ∧ s.dropped = [⟨1, 1, 8⟩, ⟨1, 2, 8⟩] ∧ s.clearedN = 1 ∧ s.gone.length = 3 := by decide
 
